@@ -327,16 +327,19 @@ REGISTRY["C15"] = {
                    "flow-node kinds, default flows, formal/informal expressions with and without language, both default languages, permuted declaration order) "
                    "decorated with data objects + references + olive body, olive taskDefinition/headers/properties/results/dataInput/dataOutput, timer / "
                    "signal / message event definitions incl. operationRef, collaborations with participants and message flows, DI shapes/edges/labels, text "
-                   "with surrounding whitespace and characters needing escaping. Oracle: M1=Parse(x), x2=Marshal(M1), M2=Parse(x2): reflective field-by-field "
+                   "with surrounding whitespace and characters needing escaping; (iii) documents assembled from a pool of 50 standard BPMN fragments (every task / event / gateway kind, "
+                   "all event definition kinds, loop and multi-instance characteristics, ioSpecification, lanes, transactions, ad-hoc sub-processes, conditional and "
+                   "immediate flows) and 13 root-element kinds with awkward attribute texts, not executed. Oracle: M1=Parse(x), x2=Marshal(M1), M2=Parse(x2): reflective field-by-field "
                    "equivalence incl. the dynamic type behind every interface field (FormalExpression vs Expression), Marshal(M2)==x2, M1 unchanged by "
                    "marshalling (vs an untouched second parse), every model-element id retrievable by FindBy(ExactId) in both models, and on every third case "
                    "the lock-step engine run on M1 and on M2 under the same data and schedule yields identical observations."),
-    "level_note": "Trusted: the reflective equivalence in props/c15/equiv.go (nil text == whitespace-only text, strings compared after trimming), encoding/xml, the lock-step driver. Ids of diagram-interchange elements and of the definitions root are not looked up (ExactId addresses base elements).",
+    "level_note": "Trusted: the reflective equivalence in props/c15/equiv.go (nil text == whitespace-only text, strings compared after trimming), encoding/xml, the lock-step driver. Ids of diagram-interchange elements and of the definitions root are not looked up; ids of non-base elements (documentation) are looked up with a predicate on Id() through the same FindBy traversal (ExactId addresses base elements only).",
     "technique": "rapid property test: XML round-trip oracle (equivalence, fixpoint, non-mutation, id lookup) plus differential engine run on original vs re-parsed model; native go fuzzing in the thorough tier",
     "rule": ("Distinct = (program, decoration flags, data, schedule) resp. file path. Non-trivial = the document contains a formal condition expression or an event definition or an olive extension."),
     "tests": [
         {"name": "TestC15Files", "mode": "plain", "shards": {"quick": 1, "thorough": 1}},
         {"name": "TestC15Generated", "checks": {"quick": 150, "thorough": 6000}, "shards": {"quick": 12, "thorough": 16}},
+        {"name": "TestC15Fragments", "checks": {"quick": 500, "thorough": 20000}, "shards": {"quick": 4, "thorough": 16}},
         # native fuzzing (thorough only): "checks" is the fuzz time in seconds
         {"name": "FuzzC15Parse", "mode": "fuzz", "tiers": ["thorough"], "checks": {"thorough": 180}, "shards": {"thorough": 1}, "limit": {"thorough": 900}},
     ],
